@@ -50,6 +50,10 @@ def strategy_(draw):
         "rho": mp.ref_densities(draw),
         "phi": draw(st.floats(0.01, 0.4)),
         "scale_exp": draw(st.integers(-6, 6)),
+        # unit system of the table: viscosity in cP (1), Pa s (1e-3), micro-poise-like large numbers (1e3), pressure in
+        # psi (1), Pa, bar, MPa - mobility and its integral scale with them, no magnitude is "typical"
+        "mu_unit": draw(st.sampled_from([0, 0, 0, -3, -3, 3, -6])),
+        "p_unit": draw(st.sampled_from([1.0, 1.0, 1.0, 6894.757, 0.06894757, 6.894757e-3])),
         "pi_frac": draw(st.floats(0.3, 1.0)),
         "pi_offnode": draw(st.one_of(st.just(0.0), st.floats(0.05, 0.95))),
         "pf_frac": draw(st.floats(0.0, 0.95)),
@@ -72,6 +76,11 @@ def setup(case):
     from bluebonnet.flow import relative_permeabilities
 
     tab = mp.build(case["table"], case["Sw"])
+    if case.get("mu_unit", 0) or case.get("p_unit", 1.0) != 1.0:
+        tab = dict(tab)
+        for k in ("mu_o", "mu_g", "mu_w"):
+            tab[k] = np.asarray(tab[k], float) * 10.0 ** case.get("mu_unit", 0)
+        tab["pressure"] = np.asarray(tab["pressure"], float) * case.get("p_unit", 1.0)
     sw = case["Sw"]
     params = RelPermParams(**case["relperm"])
     if sw <= case["relperm"]["S_wc"]:
